@@ -60,6 +60,10 @@ class World:
         self.last_rank = None
         self.spin = {}
         self.posted_recvs = 0
+        self.polling = set()
+        self.idle_mark = -1
+        self.idle_polls = 0
+        self.timed_out = False
 
     # ---------------------------------------------------------------- scheduling
     def choose(self, n, kind):
@@ -104,10 +108,11 @@ class World:
             self.cv.notify_all()
             return
         # prefer to keep running the same rank in 'fifo', otherwise scheduler decides
-        if self.policy == 'fifo' and me in en and self.dpos >= len(self.decisions):
+        pref = [r for r in en if r not in self.polling] or en  # ranks that only poll come last
+        if self.policy == 'fifo' and me in pref and self.dpos >= len(self.decisions):
             nxt = me
         else:
-            nxt = en[self.choose(len(en), 'rank')]
+            nxt = pref[self.choose(len(pref), 'rank')]
         if me in en and nxt != me:
             self.stats['preemptions'] += 1
         self.turn = nxt
@@ -185,6 +190,7 @@ class World:
         if any(t.is_alive() for t in threads):
             with self.cv:
                 self.abort = self.abort or SimError('simulation timed out (threads still alive)')
+                self.timed_out = True
                 self.cv.notify_all()
             for t in threads:
                 t.join(timeout=10)
@@ -235,12 +241,24 @@ class Request:
         w = self.world
         me = w.rank()
         if w.spin.get(me) == w.progress_count():
-            # the same rank polls again and nothing has happened in between: let the others run first (fair polling)
-            p0 = w.progress_count()
-            w.yield_point(lambda: w.progress_count() != p0 or self._is_complete() or not w.others_enabled(me), 'Test(poll)')
-        else:
-            w.yield_point(None, 'Test')
+            # the same rank polls again and nothing has happened in between: let ranks that can make progress run first (fair polling)
+            w.polling.add(me)
+        w.yield_point(None, 'Test')
+        w.polling.discard(me)
         w.spin[me] = w.progress_count()
+        # livelock = deadlock of polling ranks: nobody has made progress during many consecutive unsuccessful polls (count based, no clock)
+        if w.idle_mark != w.progress_count():
+            w.idle_mark, w.idle_polls = w.progress_count(), 0
+        if not self._is_complete():
+            w.idle_polls += 1
+            if w.idle_polls > 2000 * w.n:
+                with w.cv:
+                    if w.abort is None:
+                        w.abort = SimError(f'deadlock (livelock): no progress during {w.idle_polls} consecutive unsuccessful Test() calls; rank {me} polls a {self.kind} request that cannot complete')
+                        w.violations.append(('deadlock', str(w.abort)))
+                    w.turn = None
+                    w.cv.notify_all()
+                raise SimAbort()
         if self._is_complete():
             if self.test_delay > 0:
                 self.test_delay -= 1
